@@ -6,8 +6,8 @@ from harness.core import cbool, clist, copt, cz, czlist
 ID = "C15"
 MODEL_TARGETS = ["C15/Cases.vo"]
 PROOF_TARGETS = ["C15/Lemmas.vo", "C15/Proofs.vo", "C15/Long.vo", "C15/Paths.vo", "C15/Main.vo", "C15/Layout.vo",
-                 "C15/Refuted.vo"]
-OBLIGATION_FILES = ["C15/Refuted.v"]
+                 "C15/History.vo"]
+OBLIGATION_FILES = []
 PROPS_FILE = "C15/Props.v"
 SHARD = 120
 RULE = ("every typed conversion path of length 1..3 over the five containers (nested / 3-D / "
@@ -53,8 +53,10 @@ DST = {e: e[-1] for e in SRC}
 OUT_EDGES = {t: [e for e in SRC if SRC[e] == t] for t in "NAMLT"}
 
 NAME_POOL = ["a", "b", "zz", "B", "_", "dim_0", "var_1", "var_10", "var_2", "x y", "é", "",
-             "0", "A1", "column", "instance", "timepoints", "ab", "abc", "Z"]
-RESERVED = ["index", "time_index", "value"]
+             "0", "A1", "column", "instance", "timepoints", "ab", "abc", "Z",
+             "index", "time_index", "value", "case_id", "reading_id", "dim_id"]
+# labels from_nested_to_long uses for its own columns: legal names of data columns all the same
+RESERVED = ["index", "time_index", "value", "column"]
 LONG_COLS = ["case_id", "reading_id", "dim_id", "value"]
 
 
@@ -88,7 +90,7 @@ def _edge(rng, e, c):
     d = {"e": e}
     if e in ("A>N", "A>M", "L>N"):
         d["cn"] = _names(rng, c, rng.choice(["str", "int"])) if rng.random() < 0.45 else None
-    if e in ("A>N", "M>N"):
+    if e in ("A>N", "M>N", "T>N"):
         d["np"] = rng.random() < 0.4
     if e == "N>T":
         d["np"] = rng.random() < 0.4
@@ -173,20 +175,20 @@ def gen_cases(rng, tier):
         cases.append({"kind": "path", "start": "N", "n": 1, "c": c, "T": 2, "data": data,
                       "names": ["var_%d" % i for i in range(c)], "cells": cells,
                       "path": [{"e": "N>L"}, {"e": "L>N", "cn": None}]})
-    # names that collide with the helper columns of from_nested_to_long
+    # names that coincide with the labels from_nested_to_long gives its own columns
     for r in RESERVED:
         c = rng.randint(1, 3)
-        nm = _names(rng, c, "str")
+        nm = [x for x in _names(rng, c + 1, "str") if x != r][:c]
         nm[rng.randrange(c)] = r
-        cs = _mk_case(rng, "N", ["N>L"], rng.randint(1, 2), c, 2)
+        cs = _mk_case(rng, "N", rng.choice([["N>L"], ["N>L", "L>N"]]), rng.randint(1, 2), c, 2)
         cs["names"] = nm
-        cs["reserved_name"] = True
+        if len(cs["path"]) == 2:
+            cs["path"][1]["cn"] = None
         cases.append(cs)
     # cells_as_numpy=True out of a 2-D table
     for _ in range(3):
         n, T = rng.randint(1, 3), rng.randint(2, 4)
         cs = _mk_case(rng, "T", ["T>N"], n, 1, T)
-        cs["kind"] = "t2n_array"
         cs["path"][0]["np"] = True
         cases.append(cs)
     # nestedness predicates
@@ -369,7 +371,7 @@ def run_impl(case):
     import numpy as np
     import pandas as pd
     k = case["kind"]
-    if k in ("path", "t2n_array"):
+    if k == "path":
         obj = _build_start(case)
         tag = case["start"]
         for pos, edge in enumerate(case["path"]):
@@ -417,7 +419,7 @@ def _default_names(c):
     return ["var_%d" % i for i in range(c)]
 
 
-def _simulate(case, known_defect):
+def _simulate(case):
     """Expected final container at the level of the canonical panel (names or None, data)."""
     data = [[list(s) for s in inst] for inst in case["data"]]
     tag = case["start"]
@@ -455,12 +457,8 @@ def _simulate(case, known_defect):
             order = sorted(range(c), key=lambda j: names[j])
             data = [[inst[j] for j in order] for inst in data]
             cn = edge.get("cn")
-            if cn is not None:
-                names = list(cn)
-            elif known_defect:
-                names = _default_names(c)
-            else:
-                names = [names[j] for j in order]
+            # the identifiers the long table carries come back (sorted) unless column_names is given
+            names = list(cn) if cn is not None else [names[j] for j in order]
             st["kind"] = "S"
         elif e in ("N>T", "A>T"):
             T = len(data[0][0])
@@ -595,28 +593,17 @@ def oracle(case, out):
         return "nested-predicate: %s is not a DataFrame but reported nested" % case["what"] \
             if out["is_nested"] else None
     what = _what(case)
-    if k == "t2n_array":
-        if "err" in out:
-            return "array-cells-from-2d-table-raised: %s %s: %s" % (what, out["err"], out["msg"])
-        return _diff(_simulate(case, True), out, what)
-    exp = _simulate(case, False)
+    exp = _simulate(case)
     if "err" in exp:
         if out.get("err") == exp["err"] and out.get("at") == exp["at"]:
             return None
         return "invalid-input-accepted: %s expected %s got %s" % (what, exp["err"], out)
     if "err" in out:
-        return "conversion-raised: %s step %d %s: %s" % (what, out["at"], out["err"], out["msg"])
-    if _diff(exp, out, what) is None:
-        return None
-    # from_long_to_nested is known to replace the identifiers by var_i (F-C15-2): compare with
-    # that expectation so that any OTHER departure is still reported under its own clause
-    known = _simulate(case, True)
-    f = _diff(known, out, what)
-    if f:
-        return f
-    return ("names-not-preserved-through-long: %s expected columns %s (the long table carries "
-            "the identifiers) got %s" % (what, exp.get("cols", exp.get("labels")),
-                                         out.get("cols", out.get("labels"))))
+        # the clause names the conversion that raised, so that different conversions failing
+        # are reported separately
+        return "conversion-raised(%s): %s step %d %s: %s" % (
+            case["path"][out["at"]]["e"], what, out["at"], out["err"], out["msg"])
+    return _diff(exp, out, what)
 
 
 def nontrivial(case, out):
@@ -648,15 +635,19 @@ def shrink(case):
             for j in range(case["ncol"]):
                 yield dict(case, ncol=case["ncol"] - 1, grid=[r[:j] + r[j + 1:] for r in g])
         return
-    if case["kind"] not in ("path", "t2n_array"):
+    if case["kind"] != "path":
         return
     n, c, T = case["n"], case["c"], case["T"]
     if len(case["path"]) > 1:
         yield dict(case, path=case["path"][:-1])
     if n > 1:
         yield _trim(case, n - 1, c, T)
-    if c > 1 and not case.get("reserved_name"):
+    if c > 1:
         yield _trim(case, n, c - 1, T)
+        if "names" in case:         # also try dropping the FIRST column (keeps a special last name)
+            d = _trim(dict(case, data=[inst[1:] for inst in case["data"]],
+                           names=case["names"][1:]), n, c - 1, T)
+            yield d
     if T > 2:
         yield _trim(case, n, c, T - 1)
     if case.get("shuffle"):
@@ -767,10 +758,10 @@ def coq_case(case, out):
         return "CPred (mkF %d%%nat %s) %s %s" % (
             case["ncol"], clist([clist(["(%s)" % cell[x] for x in row]) for row in case["grid"]]),
             cbool(out["is_nested"]), clist([cbool(b) for b in out["cols"]]))
-    if k not in ("path", "t2n_array"):
+    if k != "path":
         return None
     if "err" in out:
-        if out["err"] != "ValueError" or case.get("reserved_name") or k == "t2n_array":
+        if out["err"] != "ValueError":
             return None          # the oracle has reported it; nothing to compare
         o = "None"
     else:
@@ -788,7 +779,7 @@ def coq_case(case, out):
 def coq_model_term(case):
     if case["kind"] == "pred":
         return "0"
-    if case["kind"] not in ("path", "t2n_array"):
+    if case["kind"] != "path":
         return "0"
     return "run_path %s %s" % (_cpath(case), _cstart(case))
 
@@ -798,7 +789,7 @@ def distribution(cases, results):
     d = collections.Counter()
     for c, r in zip(cases, results):
         o = r.get("out") or {}
-        if c["kind"] in ("path", "t2n_array"):
+        if c["kind"] == "path":
             d["start:%s" % c["start"]] += 1
             d["len:%d" % len(c["path"])] += 1
             d["shape:n=%d" % c["n"]] += 1
